@@ -25,6 +25,7 @@ func init() {
 }
 
 func runC02(c *eng.Ctx) {
+	defer runC02Admit(c)
 	// ---- R6 integer / float histogram siblings stay in step ----
 	c.SiblingsEqual("R6", "tsdb:memSeries.appendableHistogram", "tsdb:memSeries.appendableFloatHistogram", sibRenames, nil)
 	c.SiblingsEqual("R6", "tsdb:headAppenderBase.commitHistograms", "tsdb:headAppenderBase.commitFloatHistograms", sibRenames, []eng.SiblingDiff{
